@@ -157,6 +157,43 @@ theorem reader_view_stable_reachable (pre : List Op) (k s : Nat)
   let r := reader_view_stable (inv_reachable pre) k s hheld ops hnr
   ⟨r.2.1, r.2.2.1⟩
 
+/-! ### a query reads the pinned list, never the shared `removable` flag -/
+
+/-- what a query through a held snapshot evaluates is its pinned part list: unchanged by any later op -/
+theorem query_reads_pinned_list {st : State} (h : Inv st) (k s : Nat) (hheld : (k + 1, s) ∈ st.holders)
+    (ops : List Op) (hnr : Op.release k ∉ ops) :
+    queryParts (run st ops) s = queryParts st s ∧ view (run st ops) s = view st s :=
+  let r := reader_view_stable h k s hheld ops hnr
+  ⟨r.2.1, r.2.2.1⟩
+
+/-- … and is not affected by the PREPARE phase of a merge / sync publication, which already flags the inputs
+`removable` (before anything is committed), for ANY snapshot `s` and ANY set of ids -/
+theorem query_unaffected_by_prepare (st : State) (ids : List Nat) (s : Nat) :
+    queryParts (markRemovable ids st) s = queryParts st s ∧ view (markRemovable ids st) s = view st s := by
+  refine ⟨rfl, ?_⟩
+  unfold view markRemovable
+  dsimp only
+  apply flatMap_congr_mem
+  intro w _
+  unfold applyAll
+  dsimp only
+  split
+  · split <;> rfl
+  · rfl
+
+/-- A query that skipped `removable` wrappers would be wrong twice over (`decide`d witnesses):
+(1) between prepare and commit of a merge of parts 1,2 the table's current snapshot would show NEITHER the merged part
+nor its inputs; (2) a reader that pinned the pre-merge snapshot would lose both inputs once the merge is published,
+although its pinned list still names them and they are still open and on disk. -/
+theorem flag_reading_query_counterexample :
+    let st := run init [.batch, .batch, .flush none, .acquire 0]
+    let prepared := markRemovable [1, 2] st
+    let merged := run st [.merge [1, 2]]
+    (view st 2 = [1, 2] ∧ view prepared 2 = [1, 2] ∧ viewSkippingRemovable prepared 2 = []) ∧
+    (view merged 2 = [1, 2] ∧ viewSkippingRemovable merged 2 = [] ∧
+      (1, 2) ∈ merged.holders ∧ dirExists merged 2 = true ∧ dirExists merged 3 = true) := by
+  decide
+
 /-! ### a query sees a merged part XOR its inputs; a batch is entirely in or out
 
 Every part carries the ordinals of the batches whose rows it holds (`src`; a batch lives in exactly one part when it
